@@ -268,6 +268,10 @@ func ruleStyleID(r *Run, onlyPkg string) {
 		r.Check("style-id", fmt.Sprintf("%s:%s:%q", shortName(fn), what, pat), pos, len(missing) == 0,
 			fmt.Sprintf("%s emits style id %q%s into %s; ids not defined by style.NewStyleManager(): %v — a reference to an undefined style in every saved package that uses this helper", shortName(fn), pat, note, what, missing))
 	}
+	// only code a user of the library can reach: an id emitted by a function nobody calls cannot
+	// end up in a saved package
+	live := p.cgReach(p.exportedAPI(pkgDoc, pkgSty, pkgMd)...)
+	dead := 0
 	for _, fn := range p.ModFuncs() {
 		if fn.Pkg == nil || reader.IsReader[fn] || clones[topLevel(fn)] {
 			continue
@@ -276,6 +280,10 @@ func ruleStyleID(r *Run, onlyPkg string) {
 			continue
 		}
 		if fn.Pkg.Pkg.Path() == pkgSty {
+			continue
+		}
+		if !live[topLevel(fn)] {
+			dead++
 			continue
 		}
 		allInstrs(fn, func(in ssa.Instruction) {
@@ -323,6 +331,7 @@ func ruleStyleID(r *Run, onlyPkg string) {
 				fmt.Sprintf("exported table style template constant %s = %q is written to w:tblStyle by ApplyTableStyle but no style with that id is defined in the styles part the library generates", name, id))
 		}
 	}
+	r.Count("functions_unreachable_from_api_skipped", dead)
 	r.Min("style_id_emissions", n, 3)
 }
 
